@@ -50,6 +50,22 @@ def rsa_material():
 
 
 # ---------------------------------------------------------------------------------------------- capture of the internal-error path
+def exc_detail(ev):
+    """For an AttributeError the name of the missing attribute (line numbers are deliberately not part of a site)."""
+    import re
+    if isinstance(ev, AttributeError):
+        m = re.search(r"has no attribute '(\w+)'", str(ev))
+        return m.group(1) if m else ''
+    return ''
+
+
+def site_string(c):
+    """'file:function:Exception[(attr)]' - the form NoCrash/Model.v and gen/PieClasses.v use."""
+    if c is None:
+        return None
+    return '%s:%s%s' % (c['site'], c['exc'], '(%s)' % c['detail'] if c.get('detail') else '')
+
+
 class Capture(logging.Handler):
     """Collects the WARNING 'Error occurred while processing operation.' and the traceback record that follows it."""
     def __init__(self):
@@ -68,7 +84,8 @@ class Capture(logging.Handler):
                 fn = fr.filename.replace('\\', '/')
                 if '/kmip/' in fn and '/site-packages/' not in fn:
                     site = '%s:%s' % (fn.split('/kmip/', 1)[1], fr.name)
-            self.sites.append({'site': site, 'exc': et.__name__, 'msg': str(ev)[:160], 'line': frames[-1].lineno if frames else None})
+            self.sites.append({'site': site, 'exc': et.__name__, 'msg': str(ev)[:160], 'detail': exc_detail(ev),
+                               'line': frames[-1].lineno if frames else None})
 
     def reset(self):
         self.warnings = 0
@@ -232,9 +249,12 @@ def observe_store(drv, user='alice'):
                 'uid': int(o.unique_identifier), 'cls': type(o).__name__, 'otype': o._object_type.value,
                 'allowed': bool(o._owner == user) if pol == 'default' else None,
                 'state': st.value if st is not None else None, 'mask': mval,
-                'names': len(o.names), 'asi': len(o.app_specific_info), 'groups': len(o.object_groups),
+                'names': [str(n) for n in o.names],
+                'asi': ['%s|%s' % (a.application_namespace, a.application_data) for a in o.app_specific_info],
+                'groups': [str(g.object_group) for g in o.object_groups],
                 'value_empty': not bool(o.value), 'kft': kft.value if kft is not None else None,
-                'alg': alg.value if alg is not None else None, 'sensitive': bool(o.sensitive)})
+                'alg': alg.value if alg is not None else None,
+                'len': getattr(o, 'cryptographic_length', None), 'sensitive': bool(o.sensitive), 'policy': pol})
     finally:
         session.close()
     return out
@@ -680,3 +700,474 @@ def locate_menu():
 def _other_loc(n):
     return {'Name': kdrv.name_value('absent-name'), 'State': ST.DESTROYED, 'Object Type': OT.CERTIFICATE,
             'Cryptographic Usage Mask': [UM.EXPORT], 'Sensitive': False, 'Object Group': 'absent-group'}[n]
+
+
+# ---------------------------------------------------------------------------------------------- Python -> Coq terms
+HEADER = ('From Coq Require Import ZArith List String Bool.\nFrom PK Require Import NoCrash.Model NoCrash.Cases.\n'
+          'Import ListNotations.\nOpen Scope string_scope.\nOpen Scope list_scope.\nOpen Scope Z_scope.\n')
+
+
+def c_optz(x):
+    return cp.option(x, cp.z)
+
+
+def c_uid(u):
+    """Identifiers the model understands: canonical decimal strings; anything else cannot match a row."""
+    if u is None:
+        return 'None'
+    s = str(u)
+    if s.isdigit() and str(int(s)) == s:
+        return '(Some %s)' % cp.z(int(s))
+    return 'None'
+
+
+def _mask_val(flags):
+    m = 0
+    for f in flags:
+        m |= f.value
+    return m
+
+
+def attr_abs(a):
+    """(a_val, a_str) of an attribute: the part of its value the handlers' control flow can depend on."""
+    name = a['name']
+    v = a.get('val', _val(name) if name in CONSTRUCTIBLE else 'v')
+    if name in ('Name',):
+        return 0, v.name_value.value
+    if name == 'Application Specific Information':
+        return 0, '%s|%s' % (v['application_namespace'], v['application_data'])
+    if name in ('Object Group', 'Operation Policy Name'):
+        return 0, v
+    if name == 'Cryptographic Usage Mask':
+        return _mask_val(v), ''
+    if name == 'Unique Identifier':
+        return (int(v) if str(v).isdigit() else -1), ''
+    if name in ('Sensitive', 'Fresh', 'Always Sensitive', 'Extractable', 'Never Extractable'):
+        return (1 if v else 0), ''
+    if hasattr(v, 'value') and isinstance(getattr(v, 'value'), int):
+        return v.value, ''
+    if isinstance(v, int):
+        return v, ''
+    return 0, ''
+
+
+def c_attr(a):
+    val, st = attr_abs(a)
+    return '(at_ %s %s %s %s)' % (cp.string(a['name']), c_optz(a.get('index')), cp.z(val), cp.string(st))
+
+
+def c_tattr(t):
+    if t is None:
+        return 'None'
+    return '(Some (ta_ %s %s))' % (cp.boolean(t.get('tnames', False)), cp.lst(t['attrs'], c_attr))
+
+
+def c_secret(sx):
+    if sx is None:
+        return 'None'
+    t = sx['type']
+    if t in ('SYMMETRIC_KEY', 'PUBLIC_KEY', 'PRIVATE_KEY', 'SPLIT_KEY'):
+        default = {'SYMMETRIC_KEY': 'RAW', 'PUBLIC_KEY': 'PKCS_1', 'PRIVATE_KEY': 'PKCS_1', 'SPLIT_KEY': 'RAW'}[t]
+        w = sx.get('wrap')
+        if w is None:
+            shape = 0
+        elif w.get('eki') and w.get('mski'):
+            shape = None
+        elif w.get('eki'):
+            shape = 2 if w.get('eki_params') else 3
+        elif w.get('mski'):
+            shape = 4 if w.get('mski_params') else 5
+        else:
+            shape = 1
+        if shape is None:
+            return None
+        sym = t in ('SYMMETRIC_KEY', 'SPLIT_KEY')
+        length = (128 if sym else 1024) + (8 if sx.get('length_ok') is False else 0)
+        return '(Some (SecKey %d %d %s %d %d %d))' % (OT[t].value, KFT[sx.get('kft', default)].value,
+                                                       cp.boolean(sx.get('length_ok') is not False), shape,
+                                                       (ALG.AES if sym else ALG.RSA).value, length)
+    if t == 'CERTIFICATE':
+        return '(Some (SecCert %d))' % enums.CertificateType[sx.get('cert_type', 'X_509')].value
+    return '(Some (SecOther %d))' % OT[t].value
+
+
+def coq_item(req):
+    """Abstract request -> Coq `item` (None when the request is outside the modelled menu)."""
+    op = req['op']
+    u = c_uid(req.get('uid'))
+    b = cp.boolean
+    if op == 'Create':
+        return '(ICreate %d %s)' % (OT[req['otype']].value, c_tattr(req['ta']))
+    if op == 'CreateKeyPair':
+        return '(ICreateKeyPair %s %s %s)' % (c_tattr(req['common']), c_tattr(req['private']), c_tattr(req['public']))
+    if op == 'Register':
+        sec = c_secret(req['secret'])
+        if sec is None:
+            return None
+        return '(IRegister %d %s %s)' % (OT[req['otype']].value, sec, c_tattr(req['ta']))
+    if op == 'DeriveKey':
+        d = req['dp']
+        return '(IDeriveKey %d %s %s %s %s)' % (OT[req['otype']].value, cp.lst(req['uids'], lambda x: cp.z(int(x))),
+                                                b(d.get('data') is not None), b(d.get('params') is not None), c_tattr(req['ta']))
+    if op == 'Locate':
+        return '(ILocate %s)' % cp.lst(req['attrs'], c_attr)
+    if op == 'Get':
+        w = req.get('wrap')
+        if w is None:
+            ws = 'None'
+        else:
+            eki = 'None'
+            if w.get('eki') is not None:
+                eki = '(Some (%s, %s))' % (c_uid(w['eki']['uid']), b(w['eki'].get('params') is not None))
+            ws = '(Some (ws_ %s %s %s %s %s))' % (b(w.get('method', 'ENCRYPT') == 'ENCRYPT'), eki, b(w.get('mski') is not None),
+                                                  b(bool(w.get('attr_names'))), b(w.get('encoding') == 'NO_ENCODING'))
+        return '(IGet %s %s %s %s)' % (u, c_optz(KFT[req['kft']].value if req.get('kft') else None), b(bool(req.get('compression'))), ws)
+    if op == 'GetAttributes':
+        return '(IGetAttributes %s %s)' % (u, cp.lst(req.get('names') or [], cp.string))
+    if op == 'GetAttributeList':
+        return '(IGetAttributeList %s)' % u
+    if op == 'Activate':
+        return '(IActivate %s)' % u
+    if op == 'Revoke':
+        return '(IRevoke %s %s)' % (u, c_optz(enums.RevocationReasonCode[req['code']].value if req.get('code') else None))
+    if op == 'Destroy':
+        return '(IDestroy %s)' % u
+    if op == 'Query':
+        return 'IQuery'
+    if op == 'DiscoverVersions':
+        return 'IDiscoverVersions'
+    if op in ('Encrypt', 'Decrypt', 'Sign', 'SignatureVerify'):
+        return '(I%s %s %s)' % (op, u, b(req.get('params') is not None))
+    if op == 'MAC':
+        p = req.get('params')
+        return '(IMAC %s %s %s)' % (u, b(bool(p) and p.get('cryptographic_algorithm') is not None), b(req.get('data') is not None))
+    if op == 'SetAttribute':
+        return '(ISetAttribute %s %s)' % (u, c_attr(req['attr']))
+    if op == 'ModifyAttribute1':
+        return '(IModifyAttribute1 %s %s)' % (u, c_attr(req['attr']))
+    if op == 'ModifyAttribute2':
+        cur = req.get('current')
+        return '(IModifyAttribute2 %s %s %s)' % (u, c_attr(req['attr']), '(Some %s)' % c_attr(cur) if cur is not None else 'None')
+    if op == 'DeleteAttribute1':
+        return '(IDeleteAttribute1 %s %s %s)' % (u, cp.string(req['name']), c_optz(req.get('index')))
+    if op == 'DeleteAttribute2':
+        cur = req.get('current')
+        ref = req.get('ref')
+        return '(IDeleteAttribute2 %s %s %s)' % (u, '(Some %s)' % c_attr(cur) if cur is not None else 'None',
+                                                 cp.option(ref, cp.string))
+    raise KeyError(op)
+
+
+def coq_sobj(o):
+    assert o['policy'] == 'default', o
+    sl = lambda xs: cp.lst(xs, cp.string)
+    return '(so %s %s %s %s %s %s %s %s %s %s %s %s %s %s)' % (
+        cp.z(o['uid']), cp.string(o['cls']), cp.z(o['otype']), cp.boolean(o['allowed']), c_optz(o['state']), cp.z(o['mask']),
+        sl(o['names']), sl(o['asi']), sl(o['groups']), cp.boolean(o['value_empty']), c_optz(o['kft']), c_optz(o['alg']),
+        c_optz(o['len']), cp.boolean(o['sensitive']))
+
+
+def coq_cres(obs):
+    calls = obs['crypto']
+    if not calls:
+        return 'CNotCalled', False
+    fn, res = calls[-1]
+    if res == 'ok':
+        return 'COk', True
+    if res == 'kmip':
+        return 'CKmip', True
+    return '(CExc %s)' % cp.string(site_string(obs['crash']) or ('unobserved:' + res)), True
+
+
+OP_NAMES = {'Create': 'CREATE', 'CreateKeyPair': 'CREATE_KEY_PAIR', 'Register': 'REGISTER', 'DeriveKey': 'DERIVE_KEY', 'Locate': 'LOCATE',
+            'Get': 'GET', 'GetAttributes': 'GET_ATTRIBUTES', 'GetAttributeList': 'GET_ATTRIBUTE_LIST', 'Activate': 'ACTIVATE',
+            'Revoke': 'REVOKE', 'Destroy': 'DESTROY', 'Query': 'QUERY', 'DiscoverVersions': 'DISCOVER_VERSIONS', 'Encrypt': 'ENCRYPT',
+            'Decrypt': 'DECRYPT', 'Sign': 'SIGN', 'SignatureVerify': 'SIGNATURE_VERIFY', 'MAC': 'MAC', 'SetAttribute': 'SET_ATTRIBUTE',
+            'ModifyAttribute1': 'MODIFY_ATTRIBUTE', 'ModifyAttribute2': 'MODIFY_ATTRIBUTE', 'DeleteAttribute1': 'DELETE_ATTRIBUTE',
+            'DeleteAttribute2': 'DELETE_ATTRIBUTE'}
+MUTATING = {'Create', 'CreateKeyPair', 'Register', 'DeriveKey', 'Activate', 'Revoke', 'Destroy', 'SetAttribute', 'ModifyAttribute1',
+            'ModifyAttribute2', 'DeleteAttribute1', 'DeleteAttribute2'}
+
+
+def jsonable(x):
+    if isinstance(x, dict):
+        return {str(k): jsonable(v) for k, v in x.items()}
+    if isinstance(x, (list, tuple)):
+        return [jsonable(v) for v in x]
+    if isinstance(x, (bytes, bytearray)):
+        return 'hex:' + bytes(x).hex()
+    if isinstance(x, (str, int, float, bool)) or x is None:
+        return x
+    import enum
+    if isinstance(x, enum.Enum):
+        return '%s.%s' % (type(x).__name__, x.name)
+    if isinstance(x, cattrs.Name):
+        return 'Name:' + x.name_value.value
+    return repr(x)
+
+
+class Grid:
+    """Runs cells against the engine, applies the direct oracle, accumulates deduplicated Coq cases."""
+    def __init__(self, ctx):
+        self.ctx = ctx
+        self.cases = []
+        self.meta = []
+        self.seen = {}
+        self.stores = {}
+        self.cells = 0
+        self.crashes = 0
+
+    def store_name(self, obs_store):
+        term = cp.lst(obs_store, coq_sobj)
+        if term not in self.stores:
+            self.stores[term] = 'st%d' % len(self.stores)
+        return self.stores[term]
+
+    def header(self):
+        return HEADER + ''.join('Definition %s : store := %s.\n' % (n, t) for t, n in self.stores.items())
+
+    def cell(self, drv, req, ver, store_obs, user='alice', desc=None):
+        ctx = self.ctx
+        obs = drv.run(mk_item(req), ver, user)
+        self.cells += 1
+        op = OP_NAMES[req['op']]
+        crashed = obs['reason'] == 'GENERAL_FAILURE'
+        ctx.count('op.%s.%s' % (op, 'GENERAL_FAILURE' if crashed else ('SUCCESS' if obs['status'] == 'SUCCESS' else 'kmip_error')))
+        ctx.count('version.%d.%d' % ver)
+        if desc:
+            ctx.count('target.%s' % desc)
+        witness = {'version': list(ver), 'user': user, 'request': jsonable(req), 'store': store_obs,
+                   'observed': {'status': obs['status'], 'reason': obs['reason'], 'crash': obs['crash'], 'crypto': obs['crypto']}}
+        # ---- direct oracle: the property itself, no model involved
+        if crashed != (obs['warned'] > 0):
+            ctx.violation({'op': op, 'site': 'log-vs-reason'}, witness, 'GENERAL_FAILURE and the WARNING record disagree')
+        if crashed:
+            self.crashes += 1
+            c = obs['crash']
+            sig = {'op': op, 'site': c.get('site'), 'exc': c.get('exc'), 'detail': c.get('detail', ''),
+                   'version': '%d.%d' % ver}
+            tgt = [o for o in store_obs if req.get('uid') is not None and str(o['uid']) == str(req.get('uid'))]
+            if tgt:
+                sig['stored_type'] = tgt[0]['cls']
+            ctx.violation(sig, witness, '%s answered GENERAL_FAILURE (%s)' % (op, site_string(c)))
+        # ---- correspondence case
+        it = coq_item(req)
+        if it is None:
+            ctx.count('unmodelled')
+            return obs
+        cr, called = coq_cres(obs)
+        term = '(kc (%d,%d) %s %s %s %s %s)' % (ver[0], ver[1], self.store_name(store_obs), cr, it,
+                                                cp.option(site_string(obs['crash']) if crashed else None, cp.string), cp.boolean(called))
+        new = ctx.case_seen(term, nontrivial=True)
+        if term not in self.seen:
+            self.seen[term] = len(self.cases)
+            self.cases.append(term)
+            self.meta.append(witness)
+        return obs
+
+    def compare(self, name='grid'):
+        ctx = self.ctx
+        bad = ctx.run_cases(name, self.header(), self.cases, 'check_case', shard=250,
+                            what='NoCrash.Model.step / reaches_crypto vs KmipEngine._process_operation (crash site, crypto call reached)')
+        for i in bad[:20]:
+            says = ctx.model_output(self.header(), 'model_says %s' % self.cases[i]) if len(bad) <= 40 else None
+            ctx.disagreement(name, {'input': self.meta[i], 'coq_case': self.cases[i][:1500]}, model_says=says,
+                             impl_says=self.meta[i]['observed'])
+        return bad
+
+
+# ---------------------------------------------------------------------------------------------- the check
+TARGETS = [(t, st) for t in TYPE_NAMES for st in (STATES if t != 'OPAQUE_DATA' else ['PreActive', 'Destroyed'])]
+
+
+def stratified(menu, rng, per_op, extra):
+    """At least `per_op` requests of every operation kind of the menu, plus `extra` more at random."""
+    by_op = {}
+    for r in menu:
+        by_op.setdefault(r['op'], []).append(r)
+    out = []
+    for op in sorted(by_op):
+        rs = by_op[op]
+        out += rs if len(rs) <= per_op else rng.sample(rs, per_op)
+    rest = [r for r in menu if r not in out]
+    if extra and rest:
+        out += rng.sample(rest, min(extra, len(rest)))
+    order = {'Activate': 1, 'Revoke': 1, 'Destroy': 2}
+    out.sort(key=lambda r: order.get(r['op'], 0))
+    return out
+
+
+def run_target(grid, ctx, ver, t, st, rng, sample):
+    drv = Driver(ctx)
+    try:
+        wk = add_object(drv, obj_spec('SYMMETRIC_KEY', 'Active', 'all'), 90)
+        wk2 = add_object(drv, obj_spec('SYMMETRIC_KEY', 'PreActive', 'all'), 91)
+        spec = obj_spec(t, st, 'all', names=2, asi=1, groups=1, how=('create' if rng.random() < 0.3 else 'register'))
+        uid = add_object(drv, spec, 1)
+        menu = target_menu(uid, ver, wrap_uids=[wk, wk2, uid])
+        if sample is not None:
+            menu = stratified(menu, rng, sample[0], sample[1])
+        store = observe_store(drv)
+        for req in menu:
+            if req['op'] in ('Activate', 'Revoke', 'Destroy'):
+                req = dict(req)
+                req['uid'] = add_object(drv, spec, 2)
+                store = observe_store(drv)
+            grid.cell(drv, req, ver, store, desc='%s.%s' % (t, st))
+            if req['op'] in MUTATING:
+                store = observe_store(drv)
+    finally:
+        drv.close()
+
+
+def run_aux(grid, ctx, ver, rng, sample):
+    """Targets without mask, foreign owner, empty value, absent / unknown / non-numeric identifiers; DeriveKey; Locate over a full store."""
+    drv = Driver(ctx)
+    try:
+        us = [add_object(drv, obj_spec(t, 'Active', 'none', names=0), 3) for t in TYPE_NAMES]
+        ub = [add_object(drv, obj_spec(t, 'Active', 'all', owner='bob'), 4) for t in TYPE_NAMES]
+        ue = [add_object(drv, obj_spec(t, 'Active', 'all', empty=True), 5) for t in ('SECRET_DATA', 'OPAQUE_DATA', 'CERTIFICATE')]
+        ua = [add_object(drv, obj_spec(t, 'Active', 'all', groups=1), 6) for t in ('SYMMETRIC_KEY', 'SECRET_DATA', 'PRIVATE_KEY')]
+        store = observe_store(drv)
+        tg = [(x, 'nomask') for x in us] + [(x, 'foreign') for x in ub] + [(x, 'emptyvalue') for x in ue] + \
+             [(None, 'noid'), (9999, 'unknownid'), ('abc', 'nonnumeric'), ('01', 'noncanonical')]
+        for u, d in tg:
+            menu = [r for r in target_menu(u, ver, wrap_uids=[us[0], ub[0], ua[0]]) if not (r['op'] in ('Activate', 'Revoke', 'Destroy') and d not in ('noid', 'foreign', 'unknownid'))]
+            if sample is not None:
+                menu = stratified(menu, rng, sample[0], sample[1])
+            for req in menu:
+                if d == 'noncanonical':
+                    continue       # SQLite integer affinity: outside the modelled identifier domain (DESIGN 5.5)
+                grid.cell(drv, req, ver, store, desc=d)
+                if req['op'] in MUTATING:
+                    store = observe_store(drv)
+        allu = [o['uid'] for o in store]
+        menu = derive_menu(allu)
+        if sample is not None:
+            menu = rng.sample(menu, min(len(menu), 12 * sample[0] + sample[1]))
+        for req in menu:
+            grid.cell(drv, req, ver, store, desc='derive')
+            store = observe_store(drv)
+        for user in ('alice', 'bob', 'carol'):
+            store = observe_store(drv, user)
+            menu = locate_menu()
+            if sample is not None and user != 'alice':
+                menu = rng.sample(menu, 8)
+            for req in menu:
+                grid.cell(drv, req, ver, store, user=user, desc='locate.' + user)
+    finally:
+        drv.close()
+
+
+def run_global(grid, ctx, ver, rng, sample):
+    drv = Driver(ctx)
+    try:
+        store = observe_store(drv)
+        for req in locate_menu()[:6]:
+            grid.cell(drv, req, ver, store, desc='locate.empty')
+        menu = global_menu(ver)
+        if sample is not None:
+            menu = stratified(menu, rng, 12 * sample[0], 4 * sample[1])
+        for req in menu:
+            grid.cell(drv, req, ver, store, desc='global')
+            if req['op'] in MUTATING:
+                store = observe_store(drv)
+    finally:
+        drv.close()
+
+
+def run_random(grid, ctx, rng, rounds, per_round):
+    """Seeded random well-typed requests over random stores (two identities)."""
+    for k in range(rounds):
+        drv = Driver(ctx)
+        try:
+            ver = rng.choice(kdrv.VERSIONS)
+            n = rng.randint(3, 8)
+            uids = []
+            for i in range(n):
+                t = rng.choice(TYPE_NAMES)
+                spec = obj_spec(t, rng.choice(STATES if t != 'OPAQUE_DATA' else ['PreActive', 'Destroyed']), rng.choice(['all', 'all', 'none']),
+                                names=rng.randint(0, 2), asi=rng.randint(0, 1), groups=rng.randint(0, 1), owner=rng.choice(['alice', 'alice', 'bob']),
+                                how=rng.choice(['register', 'create']))
+                uids.append(add_object(drv, spec, 10 + i))
+            for j in range(per_round):
+                user = rng.choice(['alice', 'alice', 'bob'])
+                store = observe_store(drv, user)
+                live = [o['uid'] for o in store]
+                kind = rng.random()
+                if kind < 0.70:
+                    u = rng.choice(uids + [None, 777])
+                    menu = target_menu(u, ver, wrap_uids=rng.sample(live, min(2, len(live))))
+                elif kind < 0.80 and live:
+                    menu = derive_menu(rng.sample(live, min(3, len(live))))
+                elif kind < 0.90:
+                    menu = locate_menu()
+                else:
+                    menu = global_menu(ver)
+                grid.cell(drv, rng.choice(menu), ver, store, user=user, desc='random')
+        finally:
+            drv.close()
+
+
+# minimised past disagreements / regression cells, run first in every tier: (version, target type, state, request without uid)
+CORPUS = [
+    ((1, 2), 'OPAQUE_DATA', 'PreActive', {'op': 'MAC', 'params': {'cryptographic_algorithm': ALG.HMAC_SHA256}, 'data': b'd'}),
+    ((1, 2), 'CERTIFICATE', 'Active', {'op': 'MAC', 'params': {'cryptographic_algorithm': ALG.HMAC_SHA256}, 'data': b'd'}),
+    ((1, 0), 'SYMMETRIC_KEY', 'PreActive', {'op': 'ModifyAttribute1', 'attr': {'name': 'Cryptographic Parameters', 'index': None}}),
+    ((1, 4), 'SYMMETRIC_KEY', 'PreActive', {'op': 'ModifyAttribute1', 'attr': {'name': 'x-custom', 'index': None}}),
+    ((2, 0), 'SECRET_DATA', 'Active', {'op': 'DeleteAttribute2', 'current': {'name': 'Name'}, 'ref': None}),
+    ((2, 0), 'SECRET_DATA', 'Active', {'op': 'DeleteAttribute2', 'current': None, 'ref': 'x-custom'}),
+    ((2, 0), 'PUBLIC_KEY', 'Active', {'op': 'SetAttribute', 'attr': {'name': 'Always Sensitive'}}),
+    ((1, 3), 'CERTIFICATE', 'PreActive', {'op': 'Get', 'kft': 'RAW'}),
+]
+
+
+def run_corpus(grid, ctx):
+    for ver, t, st, req in CORPUS:
+        drv = Driver(ctx)
+        try:
+            uid = add_object(drv, obj_spec(t, st, 'all', names=1), 1)
+            r = dict(req)
+            r['uid'] = uid
+            grid.cell(drv, r, ver, observe_store(drv), desc='corpus')
+        finally:
+            drv.close()
+
+
+def run(ctx):
+    quick = ctx.tier == 'quick'
+    ctx.cov['rule'] = (
+        'grid: operation (21 + both wire forms of Modify/DeleteAttribute) x stored class (7, made with Register / Create / CreateKeyPair) '
+        'x lifecycle state (PreActive, Active, Deactivated, Compromised, Destroyed id) x KMIP version (6) x parameter menu (valid; optional '
+        'absent; inapplicable to the type; every attribute name the library can construct, names without a rule set, custom names; '
+        'unsupported algorithm / mode / padding / hash; IV absent, right and wrong length; index absent, 0, in range, out of range; '
+        'wrapping specification variants; template variants) + targets without mask / foreign owner / empty value / absent, unknown and '
+        'non-numeric ids + DeriveKey over every stored class + Locate over a full store under three identities + seeded random requests '
+        'over random stores.  quick = stratified sample (every operation kind on every target in every version), thorough = full grid.  '
+        'A case is distinct after abstraction to (version, observed store summary, abstract request, crypto-engine outcome, observed site); '
+        'all cases are non-trivial in that they execute a real handler on a real SQLite store.')
+    ctx.cov['trusted_extra'] = [
+        'harness/c13.py: abstraction of concrete requests to NoCrash.Model.item (coq_item), observation of the store through the engine\'s own ORM classes',
+        'the CryptographyEngine outcome (ok / KmipError / other exception) is an oracle input of the model, observed by wrapping its methods',
+        'translate/gen_pieclasses.py reflection (hasattr on mapped classes, ObjectFactory.convert on canonical secrets, AttributePolicy probes)']
+    ctx.regen(only=['attrrules', 'pieclasses', 'enums'])
+    ctx.prove('props/C13.v')
+    grid = Grid(ctx)
+    rng = ctx.subrng('grid')
+    run_corpus(grid, ctx)
+    sample = (1, 6) if quick else None
+    for ver in kdrv.VERSIONS:
+        for t, st in TARGETS:
+            run_target(grid, ctx, ver, t, st, rng, sample)
+        run_aux(grid, ctx, ver, rng, (1, 4) if quick else None)
+        run_global(grid, ctx, ver, rng, (1, 10) if quick else None)
+        ctx.log('version %d.%d done: %d cells, %d distinct cases, %d GENERAL_FAILURE' % (ver[0], ver[1], grid.cells, len(grid.cases), grid.crashes))
+    run_random(grid, ctx, ctx.subrng('random'), 12 if quick else 60, 40 if quick else 120)
+    ctx.log('cells %d, distinct cases %d, stores %d, GENERAL_FAILURE cells %d' % (grid.cells, len(grid.cases), len(grid.stores), grid.crashes))
+    ctx.cov['cells'] = grid.cells
+    ctx.cov['general_failure_cells'] = grid.crashes
+    grid.compare('grid')
+    for i in (0, len(grid.cases) // 3, 2 * len(grid.cases) // 3):
+        if i < len(grid.cases):
+            ctx.sample({'request': grid.meta[i]['request'], 'version': grid.meta[i]['version'], 'observed': grid.meta[i]['observed'],
+                        'coq_case': grid.cases[i][:600]})
